@@ -6,6 +6,7 @@ pub mod c04;
 pub mod c05;
 pub mod c09;
 pub mod c15;
+pub mod c16;
 pub mod c17;
 pub mod c20;
 
@@ -18,6 +19,7 @@ pub fn run(id: &str, eng: &mut Engine) -> bool {
         "C05" => c05::run(eng),
         "C09" => c09::run(eng),
         "C15" => c15::run(eng),
+        "C16" => c16::run(eng),
         "C17" => c17::run(eng),
         "C20" => c20::run(eng),
         _ => return false,
